@@ -2,4 +2,4 @@
 import hashlib
 
 def obj_seed(obj):
-    return int(hashlib.sha1(hash(obj).to_bytes(8, 'big', signed=True)).hexdigest(), 16)
+    return int(hashlib.sha1(repr(obj).encode()).hexdigest(), 16)
